@@ -60,12 +60,36 @@ pub fn run_c02(case: &Case) -> Outcome {
 
 pub fn c02(ctx: &Ctx, rep: &mut Report) {
     rep.rule = "stream workload on two real Multiplexors in simnet (options per side, link capacity, 1-4 streams from either side, writer/reader scripts incl. vectored, empty and \
-                window-exceeding bursts, generated schedule then fair run to quiescence), plus a family in which one end is driven by the CopyBidirectional bridge against a scripted local socket; oracle: every byte read equals f(stream,direction,offset), reads never run ahead of completed writes, \
+                window-exceeding bursts, generated schedule then fair run to quiescence), plus a family in which one end is driven by the CopyBidirectional bridge against a scripted local socket, plus a directed family of single writes of 64 KiB ± 1, 1 MiB ± a few, 3 MiB and 5 MiB (plain and vectored in five layouts); oracle: every byte read equals f(stream,direction,offset), reads never run ahead of completed writes, \
                 equality at EOF after a clean shutdown. Non-trivial = (>=2 streams established, or a writer blocked on credit, or a vectored write) and >=1 byte delivered. Distinct = distinct case value."
         .into();
     rep.assumptions = sim_assumptions();
     let sh = Shape { max_streams: 4, max_wops: 8, allow_empty: true, allow_drop: true, complete: false, small_windows: true, max_sched: 400 };
     ctx.prop(rep, "integrity", ctx.tier.pick(80_000, 3_000_000), 300, || stream_workload(sh), run_c02);
+    // sizes the random workloads do not reach: one write (plain or vectored in several layouts) around the u16 boundary and
+    // around and above 1 MiB, followed by a small write, a shutdown, and a reader that reads to end-of-stream
+    const BIG: [u32; 8] = [65_535, 65_536, 65_537, (1 << 20) - 5, 1 << 20, (1 << 20) + 1, 3 << 20, (5 << 20) + 7];
+    ctx.enumerate(rep, "large-writes", (BIG.len() * 5 * 2) as u64, 6, |i| {
+        let s = BIG[(i % 8) as usize];
+        let flavour = (i / 8) % 5;
+        let side = (i / 40) as usize;
+        let big = match flavour {
+            0 => WOp::Write(s),
+            1 => WOp::WriteV(vec![s / 2, s - s / 2]),
+            2 => WOp::WriteV(vec![1, s - 1]),
+            3 => WOp::WriteV(vec![s / 3, s / 3, s - 2 * (s / 3)]),
+            _ => {
+                let mut v = vec![s / 40; 39];
+                v.push(s - 39 * (s / 40));
+                WOp::WriteV(v)
+            }
+        };
+        Case {
+            opts: [OptsSpec { rwnd: 4, thr: 2, ..OptsSpec::default() }, OptsSpec { rwnd: 3, thr: 1, ..OptsSpec::default() }],
+            streams: vec![StreamSpec { side, port: 80, pad: vec![], delay: 0, park: None, ends: [EndScript { w: vec![WOp::Write(2), big, WOp::Write(3), WOp::Shutdown], r: vec![ROp::ToEof(65_536)] }, EndScript { w: vec![WOp::Write(1), WOp::Shutdown], r: vec![ROp::Read(7), ROp::ToEof(1 << 20)] }] }],
+            ..Case::default()
+        }
+    }, run_c02);
     // the other way applications move bytes through a stream: the CopyBidirectional bridge (every TCP entry point of the
     // client and the server's forwarder use it) between a scripted local side and a real peer application
     ctx.prop(rep, "bridged", ctx.tier.pick(30_000, 1_000_000), 300, || with_keepalive(super::bridge::c13_case()), |case| {
